@@ -90,4 +90,38 @@ CHECKS = {
         "note": "Numeric const values are only observable end to end (the front end records types only); compile-time division "
                 "by zero is C02 material; programs the back end cannot build are counted and left to C02.",
     },
+    "C07": {
+        "level": "model_checking",
+        "technique": "TLA+ spec Core (ResultKind/ExpKind/TypeOf = the numeric table) + GenNum: TLC enumerates operator x kinds x exponent "
+                     "kind x nesting x binding position; each consumer (policy function, checker, const evaluator, backend+rustc) is "
+                     "compared with the table",
+        "text": "The numeric-semantics table is stated once in Core.tla; GenNum walks it exhaustively to the depth bound in every binding "
+                "position with the expected type and accept/reject. The real policy function, the checker's verdict on the generated "
+                "binding and the const evaluator's recorded type are compared for every case in process; a stratified sample of accepted "
+                "cases is compiled with typed sinks so that rustc assigns the declared kind, and run to compare the value.",
+        "note": "Parenthesised-literal exponents are not decided by the documentation (only consumer agreement is judged); the e2e layer "
+                "is a seeded stratified sample; known backend defects are catalogued by feature tags in known_findings.json.",
+    },
+    "C01": {
+        "level": "translation_validation",
+        "technique": "TLA+ reference semantics Core (Accept/Run) + TLC generators GenExpr/GenProg; generated programs compiled by the real "
+                     "`incan build`, run, compared with Run(p); recorded executions validated by TLC (PipelineTrace)",
+        "text": "Core.tla is an independent statement of the documented static and dynamic semantics of the modelled subset; TLC enumerates "
+                "programs (expressions to a depth bound, statement programs via a frame machine, simulation for deeper ones), checks "
+                "soundness of the semantics on each, and prints Run(p) with feature tags. Each sampled case is rendered (self-checked by "
+                "parse(render(t)) == t), compiled by the real CLI, executed, and its stdout / error text compared value by value; real "
+                "executions are also fed back to TLC, which recomputes Accept/Run from the event's program.",
+        "note": "Subset of the language (DESIGN §5 C01/§9), dyadic floats, small ints; seeded stratified sample per run; grouping loss and "
+                "len(str) are catalogued genuine defects (pinned snapshots prevent a repair).",
+    },
+    "C02": {
+        "level": "exploration",
+        "technique": "Program space from the TLA+ generators (Core-accepted programs with feature tags) + frozen corpus; real checker => real "
+                     "emitter => real rustc build, failures mapped back to cases and matched against tag signatures",
+        "text": "The specification supplies the program space and its feature tags; the property itself is the pipeline implication observed on "
+                "the real tools: every sampled program that the real checker accepts must generate and build. rustc diagnostics are mapped "
+                "back to the generated case functions; each failure is a (stage, rustc code, tags) symptom.",
+        "note": "Exploration: a seeded stratified sample of the enumerated universe per run plus the repository's own files through the "
+                "emitter; several genuine accepted-but-unbuildable classes are catalogued.",
+    },
 }
